@@ -77,6 +77,12 @@ PROGRAMS = {
         S("sw", "a0", ("m", 4, "sp")), S("lw", "a0", ("m", 4, "sp")), S("mv", "sp", "s1"), S("lw", "s1", ("m", 0, "sp")),
         S("addi", "sp", "sp", 16), S("ret"),
     ],
+    "big-frame": [                # a frame of 4096 bytes allocated with sub and released with three addi
+        S("li", "a0", 1, lab="start"), S("call", "@f"), S("li", "a7", 1), S("ecall"), S("li", "a7", 10), S("ecall"),
+        S("li", "t0", 4096, lab="f"), S("sub", "sp", "sp", "t0"), S("sw", "s0", ("m", 8, "sp")), S("mv", "s0", "a0"),
+        S("add", "a0", "a0", "s0"), S("lw", "s0", ("m", 8, "sp")), S("addi", "sp", "sp", 2047), S("addi", "sp", "sp", 2047),
+        S("addi", "sp", "sp", 2), S("li", "t1", 8192), S("li", "t2", 4096), S("add", "t2", "t2", "t2"), S("sub", "a1", "t1", "t2"), S("ret"),
+    ],
     "two-functions": [
         S("li", "a0", 3, lab="start"), S("jal", "ra", "@g"), S("mv", "s2", "a0"), S("call", "@h"), S("add", "a0", "a0", "s2"),
         S("li", "a7", 10), S("ecall"),
@@ -111,6 +117,8 @@ def expand(st, on):
         new = ("addi", [ops[0], ops[1], zero_i])
     elif mn == "li" and -2048 <= ops[1]["v"] <= 2047:
         new = ("addi", [ops[0], z, ops[1]])
+    elif mn == "li" and ops[1]["v"] % 4096 == 0 and 4096 <= ops[1]["v"] <= 0x7ffff000:
+        new = ("lui", [ops[0], {"k": "i", "v": ops[1]["v"] >> 12}])      # a multiple of 4096 is one lui
     elif mn == "j":
         new = ("jal", [z, ops[0]])
     elif mn == "call":
